@@ -661,8 +661,17 @@ def execute(script, w):
             # subset state (only without deletions)
             if script.get("subset_state") and not models[-1].deleted_ever and len(models[-1].alive()) > 1:
                 alive = models[-1].alive()
-                sub = sorted(random.Random(script["tape"]).sample(alive, random.Random(script["tape"] + 1).randint(1, len(alive) - 1)))
+                rs_ = random.Random(script["tape"] + 1)
+                sub = random.Random(script["tape"]).sample(alive, rs_.randint(1, len(alive)))
+                if rs_.random() < 0.4 or len(sub) == len(alive):
+                    pass  # in the order drawn: any order may be asked for (cyclic orders of three or more modes included)
+                else:
+                    sub = sorted(sub)
+                if sub == alive and len(alive) > 1:
+                    sub = sub[1:] + sub[:1]
                 st = eng.backend.state(modes=sub)
+                if backend == "bosonic":
+                    sub = sorted(sub)  # documented for this backend: "mode indices are sorted in ascending order"; the others: "in the given order"
                 names = [st.mode_names[i] for i in range(st.num_modes)]
                 amps = amplitudes(st, sf.hbar)
                 if names != ["q[%d]" % i for i in sub] or any(abs(amps[k][0] - models[-1].amp[i]) > tol for k, i in enumerate(sub)):
